@@ -963,6 +963,29 @@ Section Facts.
       destruct (alookup bytes_eqb t p) as [s|] eqn:El; [eapply Ht; eauto | apply empty_state_ok; exact Hk].
   Qed.
 
+  (* take_blob / take_blobs only remove entries: what is left are entries of the table *)
+  Lemma take_blob_rest_sub paths : forall (t : table T) q s,
+    alookup bytes_eqb (snd (take_blob T hc t paths)) q = Some s -> alookup bytes_eqb t q = Some s.
+  Proof.
+    induction paths as [|p rest IH]; intros t q s; cbn [take_blob]; [cbn [snd]; auto|].
+    destruct (take_blob T hc (aremove bytes_eqb t p) rest) as [b2 t2] eqn:E2. cbn [snd].
+    intro Hl. specialize (IH (aremove bytes_eqb t p) q s). rewrite E2 in IH. cbn [snd] in IH.
+    apply IH in Hl. apply (alookup_aremove_some _ beq_spec) in Hl as [_ Hl]. exact Hl.
+  Qed.
+
+  Lemma take_blobs_rest_sub pss : forall (t : table T) q s,
+    alookup bytes_eqb (snd (take_blobs T hc t pss)) q = Some s -> alookup bytes_eqb t q = Some s.
+  Proof.
+    induction pss as [|ps rest IH]; intros t q s; cbn [take_blobs]; [cbn [snd]; auto|].
+    pose proof (take_blob_rest_sub ps t q s) as H1.
+    destruct (take_blob T hc t ps) as [b t1]. cbn [snd] in H1.
+    specialize (IH t1 q s). destruct (take_blobs T hc t1 rest) as [bs t2]. cbn [snd] in *.
+    intro Hl. auto.
+  Qed.
+
+  Lemma table_rest_ok (w : world) t pack : tbl_ok w t -> tbl_ok w (table_rest T hc t pack).
+  Proof. intros H q s Hl. apply take_blobs_rest_sub in Hl. eapply H; eauto. Qed.
+
   Lemma insert_blob_ok b : forall (w : world) t, tbl_ok w t -> blob_ok w b -> tbl_ok w (insert_blob T t b).
   Proof.
     unfold insert_blob. induction b as [|[p st] rest IH]; intros w t Ht Hb; cbn [fold_left]; [exact Ht|].
@@ -1133,10 +1156,15 @@ Section Facts.
     destruct (init_dir T w) as [[w1 t]|f] eqn:Ei; [|cbn; apply steps_one; apply init_dir_error_step].
     destruct (init_dir_rs_inv _ _ _ Hinv Ei) as [Hs1 Ht1].
     destruct (get_nodes T w1 rp goal) as [pack|f]; [|exact Hs1].
-    assert (rs_inv w (mk_rs T w1 t [] [] [] [])) as H0.
-    { split; [exact Hs1|]. split; [exact Ht1|]. intros r wr []. }
+    pose proof (steps_preserve_inv _ _ Hinv Hs1) as Hinv1.
+    assert (steps w1 (write_table T w1 (table_rest T hc t pack))) as Hsw.
+    { apply steps_one. apply SWriteTable. apply (table_rest_ok w1 t pack Ht1). }
+    set (w1t := write_table T w1 (table_rest T hc t pack)) in *.
+    assert (rs_inv w (mk_rs T w1t t [] [] [] [])) as H0.
+    { split; [eapply steps_trans; eauto|]. split; [eapply tbl_ok_steps; eauto|]. intros r wr []. }
     pose proof (run_leaves_inv w (p_leaves pack) _ Hinv H0) as H1.
-    destruct (run_nodes T teqb hc hl hr (fold_left (run_leaf T teqb hc) (p_leaves pack) (mk_rs T w1 t [] [] [] []))
+    cbv zeta. fold w1t.
+    destruct (run_nodes T teqb hc hl hr (fold_left (run_leaf T teqb hc) (p_leaves pack) (mk_rs T w1t t [] [] [] []))
                         (p_nodes pack)) as [st2|] eqn:En.
     - pose proof (run_nodes_inv w _ _ _ Hinv H1 En) as (Hs2 & Ht2 & Hr2).
       assert (js_inv w (mk_js T (rs_world T st2) (rs_table T st2) [] []) (rs_results T st2)) as Hj0.
